@@ -3,6 +3,7 @@ C11 — property theorems (model: Model/Convert.lean + regenerated Gen/ConvertXm
 spec: Spec/Xml.lean).
 -/
 import PdfVerif.Lemmas.XmlDoc
+import PdfVerif.Lemmas.Format
 
 namespace PdfVerif.Props.C11
 open PdfVerif PdfVerif.Convert PdfVerif.Xml
@@ -11,7 +12,7 @@ open PdfVerif PdfVerif.Convert PdfVerif.Xml
 
 mutual
 theorem text_item (i : Item) : (textWrites i).flatten = specTextItem i := by
-  cases i <;> simp [textWrites, specTextItem, text_items]
+  cases i <;> simp [textWrites, specTextItem, text_items, Gen.ConvertXml.t_text_box_end]
 theorem text_items (is : List Item) : (textWritesL is).flatten = specTextL is := by
   cases is with
   | nil => simp [textWritesL, specTextL]
@@ -26,7 +27,7 @@ theorem C11_text (ps : List Page) : sinkText (textDocWrites ps) = specText ps :=
   | cons p ps ih =>
     simp only [sinkText, textDocWrites, specText, List.flatMap_cons, List.flatten_append] at ih ⊢
     rw [ih]
-    simp [textPageWrites, specTextPage, text_items]
+    simp [textPageWrites, specTextPage, text_items, Gen.ConvertXml.t_text_page_end]
 
 
 example : sinkText (textDocWrites
@@ -163,7 +164,7 @@ theorem C11_xml_wf (strip : Bool) (codec : Option Str) (ps : List Page) (hc : Co
 /-- non-vacuity: a page with a figure whose name needs every kind of escape, a glyph whose font name and
 text contain control characters (strip_control on), a vertical text box and a layout group -/
 def demoPage : Page := ⟨['1'], ['0', ',', '0'], ['0'],
-  [.figure ['a', '"', '<', '&', '\t', '\x01'] ['1'] [.image ['2'] ['3']],
+  [.figure ['a', '"', '<', '&', '\t', '\x01'] ['1'] [.image ['2'] ['3'] none, .image ['2'] ['3'] (some ['x', '\x02', '&', '.', 'b', 'm', 'p'])],
    .textbox ['0'] ['4'] true [.textline ['5'] [.char ['F', '\x0b', '\''] ['6'] ['G'] ['N'] ['7'] ['<', '\r', '\x00'],
                                              .anno ['\n']]],
    .curve ['0'] ['8'] ['9']],
@@ -181,5 +182,28 @@ example : parseXML (sinkText (xmlDocWrites true (some ['u', 't', 'f', '-', '8'])
 
 /-- the escapes matter: the same figure name written raw (the pinned behaviour) is rejected by the reader -/
 example : parseXML (['<', 'f', ' ', 'n', '=', '"'] ++ ['a', '"', '<'] ++ ['"', '/', '>']) = none := by decide
+
+/-! ## The formatted numbers are in the domain of `C11_xml_wf`
+
+`fmtF3` / `fmtD` model `'%.3f' % x` / `'%d' % x` on exact values (tied to Python and to `utils.bbox2str` by the
+driver ops `fmt.*` on every run); `bbox2str` is regenerated from utils.py.  Whatever the numbers are, the
+strings consist of digits, `-`, `.`, `,` - hence are `Plain`, the hypothesis `C11_xml_wf` puts on bbox, size,
+linewidth, ids, width/height. -/
+
+theorem C11_fmt_f3_plain (x : SRat) : Plain (fmtF3 x) := (fmtF3_num x).plain
+
+theorem C11_fmt_d_plain (x : SRat) : Plain (fmtD x) := (fmtD_num x).plain
+
+theorem C11_bbox2str_plain (x0 y0 x1 y1 : SRat) : Plain (Gen.ConvertFmt.bbox2str x0 y0 x1 y1) :=
+  (bbox2str_num x0 y0 x1 y1).plain
+
+/-- e.g. a curve and a glyph whose numeric fields come from the formatters are in the domain, for all numbers -/
+theorem C11_numeric_items_ok (strip : Bool) (lw a b c d sz : SRat) (pts font cs nc text : Str)
+    (hp : Plain pts) (hcs : Plain cs) (hnc : Plain nc)
+    (hf : Legal (maybeStrip strip font)) (ht : Legal (maybeStrip strip text)) :
+    ItemOk strip (.curve (fmtD lw) (Gen.ConvertFmt.bbox2str a b c d) pts) ∧
+    ItemOk strip (.char font (Gen.ConvertFmt.bbox2str a b c d) cs nc (fmtF3 sz) text) :=
+  ⟨⟨C11_fmt_d_plain lw, C11_bbox2str_plain a b c d, hp⟩,
+   ⟨hf, C11_bbox2str_plain a b c d, hcs, hnc, C11_fmt_f3_plain sz, ht⟩⟩
 
 end PdfVerif.Props.C11
